@@ -1007,6 +1007,184 @@ impl<'a> PlanGen<'a> {
     }
 }
 
+impl<'a> PlanGen<'a> {
+    /// a random projection `t → sub-term of t`: a chain of take/drop ending in `iden`
+    fn projection(&mut self, t: &T) -> usize {
+        match t {
+            T::Prod(a, b) if self.r.below(4) != 0 => {
+                if self.r.bool() {
+                    let c = self.projection(a);
+                    self.push(PNode::Take(c))
+                } else {
+                    let c = self.projection(b);
+                    self.push(PNode::Drop(c))
+                }
+            }
+            _ => self.push(PNode::Iden),
+        }
+    }
+    /// a random rearrangement of the parts of `t`: a pair tree of projections
+    fn rearrangement(&mut self, t: &T, d: usize) -> usize {
+        if d == 0 || self.r.below(3) == 0 {
+            self.projection(t)
+        } else {
+            let a = self.rearrangement(t, d - 1);
+            let b = self.rearrangement(t, d - 1);
+            self.push(PNode::Pair(a, b))
+        }
+    }
+}
+
+/// Programs that only move data: `comp X P`, `X` a witness (or, for an input-driven program, the
+/// identity) of a product type whose parts have widths 0…9 in every combination, `P` a pair tree of
+/// projections, optionally inside further `comp`s — every copy length at every frame offset, with
+/// live frames next to the one written
+pub fn layout_plan(r: &mut Rng, via_witness: bool, wrap: usize) -> Plan {
+    let leaf = |r: &mut Rng| match r.below(9) {
+        0 => T::word(0),
+        1 => T::word(1),
+        2 => T::sum(T::One, T::word(1)),
+        3 => T::word(2),
+        4 => T::sum(T::One, T::word(2)),
+        5 => T::word(3),
+        6 => T::sum(T::One, T::word(3)),
+        7 => T::sum(T::word(1), T::word(0)),
+        _ => T::One,
+    };
+    fn tree(r: &mut Rng, n: u64, leaf: &dyn Fn(&mut Rng) -> T) -> T {
+        if n <= 1 {
+            leaf(r)
+        } else {
+            let k = 1 + r.below(n - 1);
+            T::prod(tree(r, k, leaf), tree(r, n - k, leaf))
+        }
+    }
+    let n = 2 + r.below(4);
+    let t = tree(r, n, &leaf);
+    let mut g = PlanGen::new(r, GenCfg { pin_witness: true, ..GenCfg::default() });
+    let x = if via_witness { g.witness_of(&t) } else { g.pin(&t) };
+    let d = 1 + g.r.below(3) as usize;
+    let p = g.rearrangement(&t, d);
+    let mut body = g.push(PNode::Comp(x, p));
+    for k in 0..wrap {
+        let i = g.push(PNode::Iden);
+        body = if k % 2 == 0 || via_witness { g.push(PNode::Comp(body, i)) } else { g.push(PNode::Comp(i, body)) };
+    }
+    let _ = body;
+    g.finish()
+}
+
+/// word leaves of `t` as paths from the root (false = left), with their exponent
+fn word_leaves(t: &T, path: &mut Vec<bool>, out: &mut Vec<(Vec<bool>, u32)>) {
+    for n in 0..4u32 {
+        if *t == T::word(n) {
+            out.push((path.clone(), n));
+            return;
+        }
+    }
+    if let T::Prod(a, b) = t {
+        path.push(false);
+        word_leaves(a, path, out);
+        path.pop();
+        path.push(true);
+        word_leaves(b, path, out);
+        path.pop();
+    }
+}
+
+impl<'a> PlanGen<'a> {
+    /// the projection along `path`: `P1 (P2 (… iden))`
+    fn path_expr(&mut self, path: &[bool]) -> usize {
+        let mut cur = self.push(PNode::Iden);
+        for right in path.iter().rev() {
+            cur = self.push(if *right { PNode::Drop(cur) } else { PNode::Take(cur) });
+        }
+        cur
+    }
+    /// an expression `t → 2^(2^k)` assembled from chunks copied out of the word leaves of `t`
+    fn word_from_chunks(&mut self, leaves: &[(Vec<bool>, u32)], k: u32) -> usize {
+        let fit: Vec<&(Vec<bool>, u32)> = leaves.iter().filter(|(_, n)| *n >= k).collect();
+        if !fit.is_empty() && (k == 0 || self.r.below(3) != 0) {
+            let (p, n) = fit[self.r.below(fit.len() as u64) as usize].clone();
+            let mut path = p;
+            for _ in k..n {
+                path.push(self.r.bool());
+            }
+            self.path_expr(&path)
+        } else if k == 0 {
+            // no word leaf at all: a constant bit
+            let bit = self.r.bool();
+            self.push(PNode::Word(0, vec![bit]))
+        } else {
+            let a = self.word_from_chunks(leaves, k - 1);
+            let b = self.word_from_chunks(leaves, k - 1);
+            self.push(PNode::Pair(a, b))
+        }
+    }
+}
+
+/// A 1 → 1 program whose verdict depends on data movement: a witness of a product of words and
+/// odd-width fillers, two bytes assembled from chunks of it next to a filler part (so that frames end
+/// inside a byte), compared by `eq_8` and `verify`
+pub fn layout_verdict_plan(r: &mut Rng) -> Plan {
+    let leaf = |r: &mut Rng| match r.below(10) {
+        0 | 1 => T::word(0),
+        2 | 3 => T::word(1),
+        4 | 5 => T::word(2),
+        6 => T::word(3),
+        7 => T::sum(T::One, T::word(1)),
+        8 => T::sum(T::One, T::word(0)),
+        _ => T::sum(T::One, T::word(2)),
+    };
+    fn tree(r: &mut Rng, n: u64, leaf: &dyn Fn(&mut Rng) -> T) -> T {
+        if n <= 1 {
+            leaf(r)
+        } else {
+            let k = 1 + r.below(n - 1);
+            T::prod(tree(r, k, leaf), tree(r, n - k, leaf))
+        }
+    }
+    let n = 2 + r.below(5);
+    let t = tree(r, n, &leaf);
+    let mut leaves = vec![];
+    word_leaves(&t, &mut vec![], &mut leaves);
+    let mut g = PlanGen::new(r, GenCfg { pin_witness: true, ..GenCfg::default() });
+    let x = g.witness_of(&t);
+    let a = g.word_from_chunks(&leaves, 3);
+    let b = if g.r.bool() {
+        // the same chunks again: equal unless the machine moves them wrongly
+        let mut copy = vec![];
+        fn dup(g: &mut PlanGen, i: usize, copy: &mut Vec<usize>) -> usize {
+            let n = g.nodes[i].clone();
+            let m = match n {
+                PNode::Take(c) => PNode::Take(dup(g, c, copy)),
+                PNode::Drop(c) => PNode::Drop(dup(g, c, copy)),
+                PNode::Pair(x, y) => {
+                    let x2 = dup(g, x, copy);
+                    PNode::Pair(x2, dup(g, y, copy))
+                }
+                other => other,
+            };
+            g.push(m)
+        }
+        dup(&mut g, a, &mut copy)
+    } else {
+        g.word_from_chunks(&leaves, 3)
+    };
+    let ab = g.push(PNode::Pair(a, b));
+    let d = g.r.below(2) as usize;
+    let filler = g.rearrangement(&t, d);
+    let filler_first = g.r.bool();
+    let p = if filler_first { g.push(PNode::Pair(filler, ab)) } else { g.push(PNode::Pair(ab, filler)) };
+    let xp = g.push(PNode::Comp(x, p));
+    let eq = g.push(PNode::Jet(Elements::Eq8));
+    let sel = if filler_first { g.push(PNode::Drop(eq)) } else { g.push(PNode::Take(eq)) };
+    let vf = g.push(PNode::Jet(Elements::Verify));
+    let j = g.push(PNode::Comp(sel, vf));
+    g.push(PNode::Comp(xp, j));
+    g.finish()
+}
+
 /// `comp (pair w_1 (pair w_2 (… w_k))) unit`, witness `w_i` pinned to `tys[i]`
 pub fn witness_zoo_plan(r: &mut Rng, tys: &[T]) -> Plan {
     let mut g = PlanGen::new(r, GenCfg { pin_witness: true, ..GenCfg::default() });
